@@ -5,8 +5,9 @@ package lazyref
 import (
 	"errors"
 	"fmt"
-	"strings"
 	"math"
+	"reflect"
+	"strings"
 
 	"github.com/CrowdStrike/csproto"
 	"github.com/CrowdStrike/csproto/lazyproto"
@@ -403,6 +404,15 @@ type Retained struct {
 	isnap []int32
 	bl    []bool
 	blsn  []bool
+	// every other slice-returning accessor (found by reflection: methods named ...Values of *DecodeResult):
+	// the ORIGINAL returned slice and a rendering of its contents at the time
+	others []retainedSlice
+}
+
+type retainedSlice struct {
+	name string
+	orig reflect.Value
+	snap string
 }
 
 // Retain calls the slice-returning accessors on r for tag and keeps the ORIGINAL returned objects.
@@ -436,6 +446,23 @@ func Retain(r *lazyproto.DecodeResult, tag int, what string) *Retained {
 	for _, s := range x.strs {
 		x.ssnap = append(x.ssnap, strings.Clone(s))
 	}
+	rv := reflect.ValueOf(r)
+	for i := 0; i < rv.NumMethod(); i++ {
+		name := rv.Type().Method(i).Name
+		mt := rv.Method(i).Type()
+		if !strings.HasSuffix(name, "Values") || mt.NumIn() != 1 || mt.In(0).Kind() != reflect.Int || mt.NumOut() != 2 || mt.Out(0).Kind() != reflect.Slice {
+			continue
+		}
+		switch name {
+		case "BytesValues", "StringValues", "UInt64Values", "Int32Values", "BoolValues":
+			continue // kept above with typed snapshots
+		}
+		out := rv.Method(i).Call([]reflect.Value{reflect.ValueOf(tag)})
+		if !out[1].IsNil() || out[0].Len() == 0 {
+			continue
+		}
+		x.others = append(x.others, retainedSlice{name, out[0], fmt.Sprintf("%#v", out[0].Interface())})
+	}
 	x.usnap = append([]uint64{}, x.u64...)
 	x.isnap = append([]int32{}, x.i32...)
 	x.blsn = append([]bool{}, x.bl...)
@@ -462,6 +489,11 @@ func (x *Retained) Verify() string {
 	for i := range x.i32 {
 		if x.i32[i] != x.isnap[i] {
 			return fmtMsg("%s: []int32 element %d changed from %d to %d", x.What, i, x.isnap[i], x.i32[i])
+		}
+	}
+	for _, o := range x.others {
+		if now := fmt.Sprintf("%#v", o.orig.Interface()); now != o.snap {
+			return fmtMsg("%s: slice returned by %s changed from %s to %s", x.What, o.name, o.snap, now)
 		}
 	}
 	for i := range x.bl {
